@@ -129,12 +129,12 @@ void h_set_edge_ptrs_lc(void) {
   dr_pi_dag_set_edge_ptrs(&GL);
 
   __CPROVER_assert(m == 0 || LE[g_k].u == uk, "set_edge_ptrs: the edge array is not changed");
-  __CPROVER_assert(0 <= LN[g_w].edges_begin && LN[g_w].edges_begin <= LN[g_w].edges_end && LN[g_w].edges_end <= m,
-                   "set_edge_ptrs: 0 <= edges_begin <= edges_end <= m for every node");
-  __CPROVER_assert(m == 0 || (LN[g_w].edges_begin <= g_k && g_k < LN[g_w].edges_end) == (uk == g_w),
+  long bw = LN[g_w].edges_begin, ew = LN[g_w].edges_end, bw1 = LN[g_w + 1].edges_begin;
+  __CPROVER_assert(0 <= bw && bw <= ew && ew <= m, "set_edge_ptrs: 0 <= edges_begin <= edges_end <= m for every node");
+  __CPROVER_assert(m == 0 || (bw <= g_k && g_k < ew) == (uk == g_w),
                    "set_edge_ptrs: [edges_begin, edges_end) of node w holds exactly the edges whose source is w");
-  __CPROVER_assert(g_w != 0 || LN[g_w].edges_begin == 0, "set_edge_ptrs: the ranges start at 0");
-  __CPROVER_assert(g_w != n - 1 || LN[g_w].edges_end == m, "set_edge_ptrs: the ranges end at m");
-  __CPROVER_assert(g_w + 1 >= n || LN[g_w + 1].edges_begin == LN[g_w].edges_end, "set_edge_ptrs: the ranges tile the edge array in node order");
+  __CPROVER_assert(g_w != 0 || bw == 0, "set_edge_ptrs: the ranges start at 0");
+  __CPROVER_assert(g_w != n - 1 || ew == m, "set_edge_ptrs: the ranges end at m");
+  __CPROVER_assert(g_w + 1 >= n || bw1 == ew, "set_edge_ptrs: the ranges tile the edge array in node order");
   VERIF_CANARY();
 }
